@@ -12,6 +12,8 @@ import (
 	"net"
 	"os"
 	"path/filepath"
+	"runtime"
+	"runtime/debug"
 	"strings"
 	"testing"
 	"time"
@@ -103,6 +105,11 @@ func TestVerifC18Startup(t *testing.T) {
 		r, err = run(context.Background(), cfg)
 		return
 	}
+	// A listening socket that nothing refers to any more is closed by the garbage collector's finalizer - some time later, or never
+	// in a process that allocates little. The collector is switched off while failed start-ups are judged, so that "lost" does not
+	// look like "closed".
+	gcWas := debug.SetGCPercent(-1)
+	defer debug.SetGCPercent(gcWas)
 	n := 0
 	for fi, fk := range failing {
 		for idx := 0; idx < 3; idx++ {
@@ -196,6 +203,8 @@ func TestVerifC18Startup(t *testing.T) {
 			}
 		}
 	}
+	debug.SetGCPercent(gcWas)
+	runtime.GC()
 	// healthy routers: close twice, ports free again
 	for _, kind := range healthy {
 		port := c18FreePort()
